@@ -29,7 +29,7 @@ CHECK = {
              "outcome, same number of weak learners, same selected features, predictions within 1e-5*max(1,max|prediction|) (10x band = borderline); "
              "models are compared only where re-association noise cannot decide a discrete step (smooth loss, no L1 term, no partition-scoring "
              "weak learner) - the other fits run for the race check only. (wfit) fit of ONE weak learner with given gradients on data with planted "
-             "order-duplicate features under dataset pools 1/2/16, repeated up to 20 times: score, features and predictions bit-identical. "
+             "order-duplicate features and (half of the cases) missing values under dataset pools 1/2/16, repeated up to 20 times: score, features and predictions bit-identical. "
              "Non-trivial: >= 2 threads observed inside calls on the shared object at the same time (atomic in-flight counter; for fits: >= 2 "
              "fold/trial tasks running at once, from the worker_run/worker_ran schedule points) and a non-degenerate result (>= 2 threads whose "
              "minimisation used >= 3 evaluations; non-zero loss values / views / predictions; boosting kept >= 1 weak learner; the fit is in the "
